@@ -1,6 +1,7 @@
 import AmrK.ColumnAffine
 import AmrK.RatProbe
 import AmrK.Grid
+import AmrK.Hyps
 /-! # C07 — mandoline 3D slices interpolate the right samples at every pixel
 
 One-pixel column model (`Column.result`, `Column.gridLevel`: `compute_mpinput_3d`, the four cases of
@@ -17,6 +18,12 @@ theorem slice_initialised (c : Cfg) (bs : List CBox) (rest : List (List CBox)) (
     (hlv : c.levels = bs :: rest) (wf : WF0 c bs N) (h1 : c.g ≤ c.pos) (h2 : c.pos ≤ c.G) :
     (result c).isSome :=
   Column.slice_initialised c bs rest N hlv wf h1 h2
+
+/-- the well-formedness hypothesis in decidable form, evaluated by the driver on every generated pixel
+    column: whenever it reports `wf0`, the pixel is computed from stored data only -/
+theorem initialised_of_checked_column (c : Cfg) (N : Nat) (h : wf0B c N = true) (h1 : c.g ≤ c.pos) (h2 : c.pos ≤ c.G) :
+    (result c).isSome :=
+  Column.initialised_of_checked c N h h1 h2
 
 /-- **A field affine along the normal is reproduced exactly**: if every stored value is `a + b·centre`
     on every level, the pixel is `a + b·pos` — or the two samples are `isclose` and the pixel is the
